@@ -544,3 +544,4 @@ pub fn e_choice<const N: usize, S: Src>(src: &mut S) {
         _ => vcheck!(src, false, "choice result disagrees with first-match-wins"),
     }
 }
+
